@@ -1355,6 +1355,35 @@ func runC14(c *runCtx) error {
 			}
 		}
 	}
+	// call-level faults (unknown function, wrong argument count, aggregate out of place) standing
+	// next to a DECIDING constant (`true | F`, `false & F`, a foldable constant comparison): the
+	// fault is rejected when the plan is built, whatever the folder would make of the clause
+	{
+		faults := []func() *xnode{
+			func() *xnode { return xb("=", xcall("upper", xkey(), xkey()), xs("K1")) },
+			func() *xnode { return xcall("is_int", xkey(), xval()) },
+			func() *xnode { return xb("=", xcall("upper", xcall("nosuch", xkey())), xs("K1")) },
+			func() *xnode { return xb(">", xcall("count", xkey()), xn("0")) },
+			func() *xnode { return xb("=", xcall("lower"), xs("k")) },
+		}
+		deciders := []func(f *xnode) *xnode{
+			func(f *xnode) *xnode { return xb("|", xbool(true), f) },
+			func(f *xnode) *xnode { return xb("&", xbool(false), f) },
+			func(f *xnode) *xnode { return xb("|", xb("<", xn("1"), xn("2")), f) },
+			func(f *xnode) *xnode { return xb("&", xb("<", xn("2"), xn("1")), f) },
+			func(f *xnode) *xnode { return xb("|", f, xbool(true)) },
+			func(f *xnode) *xnode { return xb("&", xb("=", xkey(), xs("a")), xb("|", xbool(true), f)) },
+		}
+		for fi, mkF := range faults {
+			for _, dec := range deciders {
+				c14Classify(e, c14GridStmt(dec(mkF()), true), "grid", "fault-next-to-deciding-constant/where")
+				if fi != 3 { // (an aggregate call is no fault in a select field; the GROUP BY consistency rules are outside the typing spec)
+					c14Classify(e, c14GridStmt(dec(mkF()), false), "grid", "fault-next-to-deciding-constant/field")
+				}
+				c14Classify(e, &xstmt{form: "delete", where: dec(mkF())}, "grid", "fault-next-to-deciding-constant/delete")
+			}
+		}
+	}
 	for _, a := range atoms {
 		c14Classify(e, c14GridStmt(xnot(a.mk()), true), "grid", "not")
 		c14Classify(e, c14GridStmt(a.mk(), true), "grid", "where-root")
